@@ -26,3 +26,15 @@ func worker(in <-chan int, j *job) {
 }
 
 func helper() { level = 3 }
+
+type msg struct{ items []int }
+
+// bad (send-fresh): the buffer is declared once and re-used for every message
+func collector(in <-chan int, out chan<- msg) {
+	var buf []int
+	for v := range in {
+		buf = buf[:0]
+		buf = append(buf, v)
+		out <- msg{items: buf}
+	}
+}
